@@ -24,6 +24,19 @@ package listMap
 //@   ensures[keys-kept] len(result) >= len(l) && (forall i in 0..len(l) :: result[i].key == old(l[i].key))
 //@   ensures[others-kept] forall i in 0..len(l) :: old(l[i].key) != key ==> result[i].value == old(l[i].value)
 //@   ensures[present] exists i in 0..len(result) :: result[i].key == key && result[i].value == v
+//@   ensures[storage] (len(result) == len(l) && ref(result) == ref(l) && cap(result) == cap(l)) || (ref(result) == ref(l) && cap(l) > len(l)) || fresh(result)
 //@   ensures[length] (len(result) == len(l) && (exists i in 0..len(l) :: old(l[i].key) == key)) || (len(result) == len(l)+1 && result[len(l)].key == key && (forall i in 0..len(l) :: old(l[i].key) != key))
 //@   assigns l[*]
 //@   loop 1 invariant 0 <= rangeidx && rangeidx <= len(l) && (forall j in 0..rangeidx :: l[j].key != key) && (forall j in 0..len(l) :: l[j] == old(l[j]))
+
+// Iter calls yield for the entries in slice order and stops when yield returns false
+//@ func (l ListMap[V]) Iter
+//@   iterates yield count len(l) args l[cbidx].key, l[cbidx].value
+//@   assigns nothing
+
+//@ func New
+//@   ensures[empty] len(result) == 0 && fresh(result)
+//@   assigns nothing
+//@ func (l ListMap[V]) Size
+//@   ensures result == len(l)
+//@   assigns nothing
